@@ -48,6 +48,14 @@ def sim_after_other_flag(p, ctx):
     ctx.sig = concrete_sig(M)
 
 
+def sim_history(p, ctx):
+    from props.simcore import run_sim_history
+
+    M = run_sim_history(p, ctx, p["mode"])
+    if M.exc is None:
+        oracles.c10(M, ctx)
+
+
 def equiv(p, ctx):
     """simulate(absence=L); remove_absence_time_list()  ==  simulate() without absence
     (members without individually absent resources and without component-bound automatic tasks; flag False or no auto task)."""
@@ -89,6 +97,8 @@ def obligations(tier, seed):
 
     obs = _sim_obligations(tier, seed)
     thorough = tier == "thorough"
+    resumed = [ob for ob in obs if ob["name"].startswith("abs/") and "/pa0=" not in ob["name"] and ("k=FS" in ob["name"] or thorough)]
+    obs += profiles.with_history([ob for ob in _sim_obligations(tier, seed) if ob["name"].startswith("abs/") and "k=FS" in ob["name"] and "pa0=1" in ob["name"]], "resume", 4)
     for ob in list(obs):
         if ob["name"].startswith("abs/") and "auto1=1" in ob["name"] and ("k=FS" in ob["name"] or thorough):
             obs.append(dict(ob, harness="sim_after_other_flag", name="otherflag/" + ob["name"]))
